@@ -159,4 +159,19 @@ def metal_grammar():
                 fills = [El("b", children=["F9"], metal={"fill-slot": "s9"})]
             use = El("p", children=fills, metal={"use-macro": "macros/m"})
             out.append(("metal%d%d" % (mb, uv), El("html", children=[macro, " ", use, " ", El("s", children=["after"], content=(False, "tv"))])))
+    # three slots, all filled (the third slot expansion inside one macro expansion)
+    macro = El("div", children=["[", El("span", children=["d1"], metal={"define-slot": "s1"}), "|", El("span", children=["d2"], metal={"define-slot": "s2"}), "|",
+                                 El("span", children=["d3"], metal={"define-slot": "s3"}), "]"], metal={"define-macro": "m"})
+    use = El("p", children=[El("b", children=["F1"], metal={"fill-slot": "s1"}), El("b", children=["F2"], content=(False, "tv"), metal={"fill-slot": "s2"}), El("b", children=["F3"], metal={"fill-slot": "s3"})], metal={"use-macro": "macros/m"})
+    out.append(("metal35", El("html", children=[macro, " ", use])))
+    # the macro is used BEFORE its definition is rendered in place: the definition shows its defaults
+    macro = El("div", children=["[", El("span", children=["d1"], metal={"define-slot": "s1"}), "|", El("span", children=["d2 ", El("u", children=["t"], content=(False, "tv"))], metal={"define-slot": "s2"}), "]"], metal={"define-macro": "m"})
+    use = El("p", children=[El("b", children=["F1"], content=(False, "tv"), metal={"fill-slot": "s1"}), El("b", children=["F2"], metal={"fill-slot": "s2"})], metal={"use-macro": "macros/m"})
+    out.append(("metal0r", El("html", children=[use, " ", macro, " ", El("p", children=["again"], metal={"use-macro": "macros/m"})])))
+    # a second macro used inside a fill element of the first, with its own fill
+    macro = El("div", children=["[", El("span", children=["d1"], metal={"define-slot": "s1"}), "|", El("span", children=["d2"], metal={"define-slot": "s2"}), "]"], metal={"define-macro": "m"})
+    macro2 = El("span", children=["(", El("i", children=["td"], metal={"define-slot": "t"}), ")"], metal={"define-macro": "n"})
+    inner = El("q", children=[El("i", children=["inner"], content=(False, "tv"), metal={"fill-slot": "t"})], metal={"use-macro": "macros/n"})
+    use = El("p", children=[El("b", children=["outer[", inner, "]"], metal={"fill-slot": "s1"}), El("em", children=["F2"], condition="cv", metal={"fill-slot": "s2"})], metal={"use-macro": "macros/m"})
+    out.append(("metalnest", El("html", children=[macro, macro2, " ", use])))
     return out
